@@ -60,6 +60,13 @@ GRDIAG = {1: "identity missing", 2: "not closed under the product", 3: "an inver
           4: "two operations equal modulo lattice translations"}
 
 
+def report(ck, stats, what, replay, key):
+    """at most two replays per violation class; further ones are counted"""
+    n = stats.setdefault("violations-by-key", {})
+    n[key] = n.get(key, 0) + 1
+    if n[key] <= 2: ck.violation(what, replay, key=key)
+
+
 def impl_op_exact(g, dim):
     return {"rot": [[int(x) for x in r] for r in np.array(g.rot)], "trans": [latt.rat(x, 10 ** 6, 1e-9) for x in g.trans],
             "perm": [list(int(x) for x in p) for p in g.indexmap]}
@@ -87,7 +94,9 @@ def random_strain(rng, spec):
         for i in range(d):
             for j in range(i, d):
                 eps[i][j] = eps[j][i] = rng.choice(vals)
-    if all(x == 0 for r in eps for x in r): eps[d - 1][d - 1] = Fr(1, 32)
+    if all(x == 0 for r in eps for x in r):
+        if spec.Aq is None and d == 2: eps[0][0] = eps[1][1] = Fr(1, 32)
+        else: eps[d - 1][d - 1] = Fr(1, 32)
     return eps
 
 
@@ -136,25 +145,25 @@ def evaluate(ck, rng, spec, crys, mode, stats, coq_terms):
     stats["kinds"][kind] = stats["kinds"].get(kind, 0) + 1
     bad_shape = [o for o in ops if "bad" in o]
     if bad_shape:
-        ck.violation("GroupOp of the wrong dimension in crys.G: " + bad_shape[0]["bad"], replay,
+        report(ck, stats, "GroupOp of the wrong dimension in crys.G: " + bad_shape[0]["bad"], replay,
                      key="c18-nosym-2d" if (mode == "NOSYM" and d == 2) else "c18-op-shape")
         return view
     if nG == 0:
-        ck.violation("crys.G is empty", replay, key="c18-empty-group"); return view
+        report(ck, stats, "crys.G is empty", replay, key="c18-empty-group"); return view
     # ---- direct evaluation, exact (Python Fractions) ------------------------------------------
     for k, o in enumerate(ops):
         why = latt.py_check_op(view, o)
         if why:
-            ck.violation("operation %d of crys.G is not a symmetry: %s" % (k, why),
+            report(ck, stats, "operation %d of crys.G is not a symmetry: %s" % (k, why),
                          dict(replay, rot=o["rot"], trans=[str(x) for x in o["trans"]], indexmap=o["perm"]), key="c18-op-invalid")
             break
         if not latt.py_spin_ok(crys, o["g"]):
-            ck.violation("operation %d of crys.G does not keep the spins (no phase factor works)" % k,
+            report(ck, stats, "operation %d of crys.G does not keep the spins (no phase factor works)" % k,
                          dict(replay, rot=o["rot"], trans=[str(x) for x in o["trans"]], indexmap=o["perm"]), key="c18-spin")
             break
     why = latt.py_check_group(view, ops)
     if why:
-        ck.violation("crys.G is not a group modulo lattice translations: " + why, replay, key="c18-not-group")
+        report(ck, stats, "crys.G is not a group modulo lattice translations: " + why, replay, key="c18-not-group")
     # ---- direct evaluation, floats on the implementation --------------------------------------
     A, Ai = crys.lattice, crys.invlatt
     for o in ops:
@@ -165,7 +174,7 @@ def evaluate(ck, rng, spec, crys, mode, stats, coq_terms):
         e3 = max(np.abs(gi.rot - np.eye(d, dtype=int)).max(), np.abs(gi.trans).max(), np.abs(gi.cartrot - np.eye(d)).max())
         idperm = tuple(tuple(range(len(ul))) for ul in crys.basis)
         if not (e1 <= FTOL and e2 <= FTOL and e3 <= FTOL and gi.indexmap == idperm and (g.inv() * g).indexmap == idperm):
-            ck.violation("cartrot not orthogonal / not A rot A^-1 / g*g.inv() not the identity (%.2g, %.2g, %.2g)" % (e1, e2, e3),
+            report(ck, stats, "cartrot not orthogonal / not A rot A^-1 / g*g.inv() not the identity (%.2g, %.2g, %.2g)" % (e1, e2, e3),
                          dict(replay, rot=o["rot"]), key="c18-float-algebra")
             break
     # ---- independent exact enumeration (evidence only: completeness is not part of the property) ----
@@ -218,11 +227,11 @@ def run_coq(ck, coq_terms, stats):
         for (term, replay, nG), r in zip(ch, res):
             stats["coq-cases"] += 1
             if r[0] != 0:
-                ck.violation("Coq checker rejects operation %d of crys.G: %s" % (r[0] - 1, OPDIAG.get(r[1], r[1])), replay, key="c18-coq-op-%d" % r[1])
+                report(ck, stats, "Coq checker rejects operation %d of crys.G: %s" % (r[0] - 1, OPDIAG.get(r[1], r[1])), replay, key="c18-coq-op-%d" % r[1])
             if r[2] != 0:
-                ck.violation("Coq group checker: %s" % GRDIAG.get(r[2], r[2]), replay, key="c18-coq-group-%d" % r[2])
+                report(ck, stats, "Coq group checker: %s" % GRDIAG.get(r[2], r[2]), replay, key="c18-coq-group-%d" % r[2])
             if r[3] != 0 or r[4] != 0:
-                ck.violation("GroupOp.__mul__ / inv() differ from the model op_mul / op_inv (%d products, %d inverses)" % (r[3], r[4]),
+                report(ck, stats, "GroupOp.__mul__ / inv() differ from the model op_mul / op_inv (%d products, %d inverses)" % (r[3], r[4]),
                              replay, key="c18-coq-algebra")
 
 
@@ -264,7 +273,7 @@ def run(ck):
                 except Exception as e:
                     stats["construct-exceptions"] += 1
                     ck.case(key=(spec.describe(), mode), nontrivial=True, kind="%dD-%s-exception" % (spec.dim, mode))
-                    ck.violation("Crystal(%s) raised %s: %s" % (", ".join("%s=%s" % kv for kv in kw.items()) or "default", type(e).__name__, e),
+                    report(ck, stats, "Crystal(%s) raised %s: %s" % (", ".join("%s=%s" % kv for kv in kw.items()) or "default", type(e).__name__, e),
                                  {"spec": spec.describe(), "mode": mode, "kwargs": kw,
                                   "reproduce": "Crystal(np.array(%r), %r, spins=%r%s)" % (spec.A.tolist(), [[list(map(float, u)) for u in ul] for ul in spec.basis],
                                                                                           spec.spins, "".join(", %s=%s" % kv for kv in kw.items()))},
@@ -281,7 +290,7 @@ def run(ck):
                     crys = crys0.strain(epsf)
                 except Exception as e:
                     stats["construct-exceptions"] += 1
-                    ck.violation("Crystal.strain raised %s: %s" % (type(e).__name__, e), {"spec": spec.describe(), "eps": epsf.tolist()},
+                    report(ck, stats, "Crystal.strain raised %s: %s" % (type(e).__name__, e), {"spec": spec.describe(), "eps": epsf.tolist()},
                                  key="c18-construct-exception")
                     continue
                 # strain() passes the crystal's own (possibly non-integer after reduction) spins on
